@@ -725,6 +725,39 @@ def s14(rep):
     rep.floor("message buffers built in terror.c", n, 5)
 
 
+def s15(rep):
+    """`D has C1 and D has C2 ...` conditions guard conditional exports; ablogIsListImplied* answer whether *every* condition of
+    a list follows from what is known.  The inner function retries after adding a fact derived through the category hierarchy
+    for one element of the list -- and the retry, like the first attempt, is about the whole list.  Handing the retry a cursor
+    into the list instead (the tail from the current element) forgets the unmet conditions before it: an operation exported
+    under `if % has Ord then if % has Hsh` becomes usable where only the second is known, and the ill-typed program compiles.
+    Every call of ablogIsListImplied0 / ablogIsListImpliedInner in ablogic.c whose caller has a list parameter passes that
+    parameter itself, never a local cursor."""
+    f = common.extract("ablogic.c", all_trees=True)
+    n = 0
+    for name, fn in sorted(f.funcs.items()):
+        if "body" not in fn or not fn.get("file", "").endswith("ablogic.c"):
+            continue
+        lists = [p_["n"] for p_ in fn.get("params", []) if (p_.get("t") or "").endswith("List")]
+        if not lists:
+            continue
+        for c in calls(fn["body"]):
+            if c.get("callee") not in ("ablogIsListImplied0", "ablogIsListImpliedInner") or len(c["c"]) < 3:
+                continue
+            n += 1
+            a = strip(c["c"][2])
+            key = "whole-list-implied:%s@%d" % (name, n)
+            if a is not None and a["k"] == "DeclRefExpr" and a.get("dk") == "parm" and a["n"] in lists:
+                rep.ok("S15", key)
+            else:
+                rep.violation("S15", "whole-list-implied:%s" % name, "ablogic.c:%d (%s)" % (c["l"], name),
+                              "%s asks whether `%s` is implied, not its own list `%s`: the conditions of the list that lie before "
+                              "the cursor are forgotten, so an export guarded by two nested conditions is visible where only the "
+                              "later one is known and the program that uses it is accepted"
+                              % (name, render(a)[:40] if a else "?", lists[0]))
+    rep.floor("whole-list implication queries in ablogic.c", n, 3)
+
+
 def s12(rep):
     """A call is matched against a parameter list by tfSatAsMulti: a loop over the PARAMETERS finds for each one its argument
     (by position or by `name == value` keyword) or its default.  Arguments that no parameter took -- too many positional ones, or
@@ -800,6 +833,7 @@ def run(tier, only=None):
     s12(rep)
     s13(rep)
     s14(rep)
+    s15(rep)
     from . import variant_dispatch
     variant_dispatch.report_absyn(rep, "S10", ["ti_bup.c", "ti_tdn.c", "ti_sef.c", "scobind.c", "abcheck.c"], 180)
     from . import selfcompare
